@@ -146,8 +146,18 @@ func (t *FnTrans) instr(b *ssa.BasicBlock, idx int, in ssa.Instruction, st *Heap
 			if mt, ok := rg.X.Type().Underlying().(*types.Map); ok {
 				m := t.val(rg.X)
 				if m.K == VScalar && nv.Sub[0].K == VScalar && nv.Sub[1].K == VScalar {
-					_, present := t.mapRead(st, mt, m.S, nv.Sub[1].S, reach)
+					mv, present := t.mapRead(st, mt, m.S, nv.Sub[1].S, reach)
 					t.assume(reach, implies(nv.Sub[0].S, present), "a key produced by ranging over a map is present in it")
+					// ... and the value produced with it is the value stored under that key
+					if nv.Sub[2].K == VScalar && mv.K == VScalar {
+						t.assume(reach, implies(nv.Sub[0].S, eq(nv.Sub[2].S, mv.S)), "the value produced by ranging over a map is the value stored under the produced key")
+					} else if nv.Sub[2].K == VSlice && mv.K == VSlice && len(mv.Sub) == 4 {
+						var eqs []string
+						for k := 0; k < 4; k++ {
+							eqs = append(eqs, eq(nv.Sub[2].Sub[k].S, mv.Sub[k].S))
+						}
+						t.assume(reach, implies(nv.Sub[0].S, and(eqs...)), "the value produced by ranging over a map is the value stored under the produced key")
+					}
 				}
 			}
 		}
@@ -739,6 +749,11 @@ func (t *FnTrans) mapRead(st *HeapState, mt *types.Map, m, key string, reach str
 	}
 	present := sx("select", sx("select", t.heapGet(st, comp, srt), m), key)
 	present = and(not(eq(m, "0")), present)
+	if ks == "Str" && !t.phase2 && !strings.HasPrefix(key, "sks.") {
+		// string keys the code itself looks up are instantiation candidates
+		// for facts quantified over all strings (forallstr in hypotheses)
+		t.strTerms[key] = true
+	}
 	cds := t.mapValComps(mt)
 	var val Val
 	base := "M." + typeKey(mt) + ".val"
